@@ -315,6 +315,9 @@ def check(case):
             err = (R64 - expect).abs().max()
             scale = float(lhs64.abs().sum(-1).max()) * float(Xref.abs().max() + 1e-300)
             bound = tol.C_DIRECT * n * u * kappa * g * scale
+            if any(node["op"] == "Mul" for node in R.walk(r)):
+                # (same jitter term as in the residual branch, propagated to X: |dX| <= ||A^-1|| ||E|| ||X||, ||A^-1|| = kappa / ||A||)
+                bound = bound + 16.0 * n * tol.JITTER_MAX[dtname] * (1.0 + normA) * (kappa / max(normA, 1e-300)) * scale
             if case["cell"].get("linalg_dtypes") == "f32" and dtname == "f64":
                 bound = bound * (tol.U["f32"] / u)
             if float(err) > bound:
@@ -340,6 +343,29 @@ def _has(name):
 
 for _nm in gen.PREDS:
     TRIGGERS["has_" + _nm] = _has(_nm if _nm not in ("TriT", "TriBase") else "Tri")
+def _batch_repeated_component(case):
+    """a BatchRepeatLinearOperator somewhere in the BUILT operator tree: either written in the recipe, or created by a
+    constructor that batch-expands its components (Kronecker, Sum, ...) for a component class with the default
+    _expand_batch (user subclasses such as Minimal, kernels)"""
+    import linear_operator
+
+    if any(n["op"] == "BatchRepeat" for n in R.walk(case["recipe"])):
+        return True
+    try:
+        op = R.build(case["recipe"])
+    except Exception:
+        return False
+    todo, seen = [op], 0
+    while todo and seen < 200:
+        o = todo.pop()
+        seen += 1
+        if isinstance(o, linear_operator.operators.BatchRepeatLinearOperator):
+            return True
+        todo.extend(a for a in getattr(o, "_args", ()) if isinstance(a, linear_operator.LinearOperator))
+    return False
+
+
+TRIGGERS["batch_repeated_component"] = _batch_repeated_component
 TRIGGERS["has_lhs"] = lambda c: "lhs" in c
 TRIGGERS["rhs_vector"] = lambda c: c["rhs_kind"] == "vector"
 TRIGGERS["rhs_batch_differs"] = lambda c: c["rhs_kind"] in ("broadcast_more", "broadcast_fewer", "size1")
